@@ -211,6 +211,11 @@ type Config struct {
 	RecvFresh bool
 	// ParamNames: symbols for parameters are their source names instead of p0, p1, ... (struct mode constructors).
 	ParamNames bool
+	// ParamSyms: symbol names for the parameters by position (overrides ParamNames where non-empty), so that the
+	// result does not depend on how the analysed code names its parameters.
+	ParamSyms []string
+	// ParamList: pre-bound parameter values by position (nil entries are not bound); takes precedence over ParamValues.
+	ParamList []Value
 	// ParamFresh: every enumerated path starts from a deep copy of ParamValues (sharing between them preserved).
 	ParamFresh bool
 	// Opaque handles method calls on opaque values (data sets, thread pools) before the built-in treatment.
@@ -323,11 +328,20 @@ func (it *Interp) runOnce(fd *ast.FuncDecl) (p *Path, und *Undecided) {
 	it.path.Recv = recv
 	k := 0
 	pvals := it.cfg.ParamValues
-	if it.cfg.ParamFresh && pvals != nil {
+	plist := it.cfg.ParamList
+	if it.cfg.ParamFresh && (pvals != nil || plist != nil) {
 		memo := map[interface{}]Value{}
 		pvals = map[string]Value{}
 		for n, v := range it.cfg.ParamValues {
 			pvals[n] = DeepCopy(v, memo)
+		}
+		plist = nil
+		for _, v := range it.cfg.ParamList {
+			if v == nil {
+				plist = append(plist, nil)
+			} else {
+				plist = append(plist, DeepCopy(v, memo))
+			}
 		}
 	}
 	for _, f := range fd.Type.Params.List {
@@ -337,9 +351,15 @@ func (it *Interp) runOnce(fd *ast.FuncDecl) (p *Path, und *Undecided) {
 			if it.cfg.ParamNames {
 				name = n.Name
 			}
+			if k < len(it.cfg.ParamSyms) && it.cfg.ParamSyms[k] != "" {
+				name = it.cfg.ParamSyms[k]
+			}
 			v := it.paramValue(obj.Type(), name, n.Pos())
 			if pv, ok := pvals[n.Name]; ok {
 				v = pv
+			}
+			if k < len(plist) && plist[k] != nil {
+				v = plist[k]
 			}
 			for _, a := range it.cfg.Alias {
 				if a == k {
@@ -652,6 +672,8 @@ func (it *Interp) stmt(s ast.Stmt) {
 			return
 		}
 		it.undecided(s.Pos(), "statement %T", s)
+	case *ast.LabeledStmt:
+		it.stmt(x.Stmt)
 	case *ast.EmptyStmt:
 	default:
 		it.undecided(s.Pos(), "statement %T", s)
@@ -1112,7 +1134,7 @@ func (it *Interp) compare(op token.Token, l, r Value, pos token.Pos) *BoolVal {
 var mathFn = map[string]string{
 	"math.Sin": "sin", "math.Cos": "cos", "math.Tan": "tan", "math.Sinh": "sinh", "math.Cosh": "cosh", "math.Tanh": "tanh",
 	"math.Exp": "exp", "math.Log": "log", "math.Log1p": "log1p", "math.Erf": "erf", "math.Erfc": "erfc", "math.Gamma": "gamma",
-	"math.Sqrt": "sqrt", "math.Pow": "pow", "math.Abs": "fabs", "math.Floor": "floor", "math.Ceil": "ceil", "math.Round": "round", "math.Trunc": "trunc",
+	"math.Sqrt": "sqrt", "math.Pow": "pow", "math.Abs": "fabs", "math.Max": "fmax", "math.Min": "fmin", "math.Floor": "floor", "math.Ceil": "ceil", "math.Round": "round", "math.Trunc": "trunc",
 	"special.LogErfc": "logerfc", "special.Digamma": "digamma", "special.Trigamma": "trigamma", "special.Mlgamma": "mlgamma",
 	"special.GammaP": "gammap", "special.GammaPfirstDerivative": "gammapd1", "special.GammaPsecondDerivative": "gammapd2",
 	"special.BesselI": "besseli", "special.LogBesselI": "logbesseli",
@@ -1178,13 +1200,28 @@ func (it *Interp) call(call *ast.CallExpr) Value {
 	}
 	// builtins
 	if id, ok := ast.Unparen(call.Fun).(*ast.Ident); ok {
-		if b, ok := info.Uses[id].(*types.Builtin); ok {
+		if bi, ok := info.Uses[id].(*types.Builtin); ok {
+			b := bi
 			switch b.Name() {
 			case "panic":
 				it.path.Panic = true
 				it.path.Events = append(it.path.Events, Event{Kind: "panic", Pos: call.Pos()})
 				it.done = true
 				return NilVal{}
+			case "min", "max":
+				// builtin min/max over numbers: decided for constants, a symbolic fmin/fmax otherwise
+				if len(call.Args) == 2 {
+					a, b := it.evalTerm(call.Args[0]), it.evalTerm(call.Args[1])
+					if ca, ok := a.IsConst(); ok {
+						if cb, ok := b.IsConst(); ok {
+							if (ca.Cmp(cb) < 0) == (bi.Name() == "min") {
+								return a
+							}
+							return b
+						}
+					}
+					return sym.Fn("f"+bi.Name(), a, b)
+				}
 			case "len":
 				v := it.eval(call.Args[0])
 				if c, ok := v.(*Container); ok {
